@@ -168,7 +168,8 @@ def run_group(gs):
                     if pk["scaling_type"] not in (ScalingType.NoScaling, ScalingType.Custom):
                         pk["scaling_primal"] = np.array(x0, copy=True)
                         pk["scaling_dual"] = np.array(y0, copy=True)
-                params = Params(**pk)
+                shared = rs.get("share_params_with")
+                params = solvers[shared].params if shared is not None else Params(**pk)
                 rec.run = run
                 solver = TracedSolver(
                     rp, params, rec, run=run, algkey=rs.get("algkey", 1), twin=rs.get("twin", "none"),
